@@ -99,7 +99,10 @@ def dm6265(host: str, dom: str) -> bool:
     """RFC 6265 §5.1.3 (cookie domain canonicalised per §5.2.3: lower case, one leading dot ignored)"""
     h, d = host.lower(), dom.lower()
     if d.startswith("."): d = d[1:]
-    return h == d or (h.endswith("." + d) and not is_ip(h))
+    if h == d: return True
+    if d == "":       # an empty cookie domain ("" or ".") is host-only (§5.2.3 / §5.3 step 4): nothing suffix-matches it
+        return h == dom.lower()
+    return h.endswith("." + d) and not is_ip(h)
 
 
 def pm6265(request_target: str, cpath: str) -> bool:
@@ -133,7 +136,10 @@ class Check(PropertyCheck):
                   "the Cookie header of every request; frozen clock), exhaustive host x domain / path x path pairs, int() strings. New: attached_only_if_spec_match_hdr / "
                   "jar_is_last_write_hdr — the same for histories given by the TEXT of the Set-Cookie headers: the tokenizer "
                   "(_read_set_cookie_pairs / parse_set_cookie_header, the transcription C34 maintains, after fixes e0e81be4a / "
-                  "8cc872297) is inside the model, and the tie now hands the model the header text (driver op hresp). Cookie values "
+                  "8cc872297) is inside the model, and the tie now hands the model the header text (driver op hresp). Owner round 6: the RFC spec domainMatch6265 (Lean and the "
+                  "oracle's dm6265, tied to each other by the dm op) treats an EMPTY Domain value ('' or '.') as host-only (§5.2.3 / "
+                  "§5.3 step 4): nothing suffix-matches it (empty_domain_matches_nothing); expired_removed_partial is expired_removed "
+                  "under the name its guard calls for. Cookie values "
                   "are Option-valued (None for a bare name) and the request's Cookie header is C34's _format_pairs transcription.")
     level_note = ("trusted: Lean kernel; differential tie; email.utils date parsing is the only parameter of a response (a function Expires-value -> timestamp; the theorems hold "
                   "for every such function); the Set-Cookie tokeniser is transcribed (Model/C34, imported) and tied here by hresp "
@@ -141,7 +147,8 @@ class Check(PropertyCheck):
                   "the Cookie header is rendered by C34's transcription of _format_pairs (quoting of special values): both are tied by "
                   "the header-text case kind 'hdr' (value-less names, quoted/special values, several cookies per header, odd "
                   "tokens), whose oracle only rejects a raising hook — it is a transcription tie, like the 'int' kind; the harness also checks on every response that the real tokeniser delivers the cookies sent; the flow filter is the "
-                  "`flt` flag; ASCII hosts/domains/attribute values only (str.lower = ASCII lower, int() on ASCII); the cookie's "
+                  "`flt` flag of a request (responses are learned whenever a filter is SET — `if self.flt:` — without matching it, in "
+                  "code and model alike); ASCII hosts/domains/attribute values only (str.lower = ASCII lower, int() on ASCII); the cookie's "
                   "path is the one ckey stores (Path attribute or '/'): RFC 6265's default-path is not part of the statement "
                   "and not modelled; where Python int() and the RFC grammar disagree about a Max-Age value ('+0', '1_0') the "
                   "oracle abstains on expiry (the model follows int()) — only when the two readings give "
@@ -577,6 +584,10 @@ class Check(PropertyCheck):
         c = {"evs": [resp(E, "sid", "v1", [])]}
         o = obs(c, kept(E)); o["evs"][0]["raised"] = "TypeError"
         assert any("raised" in f for f in self.oracle(c, o)), "raising hook must be rejected"
+        # (e) empty Domain value: the RFC reader lets nothing but the attribute string itself match it
+        assert not dm6265("example.com.", "") and not dm6265("example.com.", ".") and not dm6265("example.com", "")
+        assert dm6265("", "") and dm6265(".", ".") and dm6265("sub.example.com", ".example.com") and not dm6265("1.2.3.4", ".3.4")
+        assert self.oracle({"dm": ["example.com.", ""]}, {"dm": True}), "code matching an empty Domain must be rejected"
         # (d) pair cases: only 'impl says yes, RFC says no' is a failure (the property is an only-if)
         assert self.oracle({"dm": ["x." + E + ".evil.org", "." + E]}, {"dm": True}) and not self.oracle({"dm": ["sub." + E, E]}, {"dm": False})
         assert self.oracle({"pm": ["/foobar", "/foo"]}, {"pm": True}) and not self.oracle({"pm": ["/foo/bar", "/foo"]}, {"pm": False})
